@@ -2014,39 +2014,41 @@ case_metz(Ctx& ctx)
   const double Aprod = L[0].abs * L[1].abs * L[2].abs / (P0 * P0);
   bool any_active = H[0] > 0 || H[1] > 0 || H[2] > 0;
   ctx.nontrivial = any_active;
-  // which axes are cut by max_kernel_size?  compare with the unrestricted filter
-  auto truncated_axes = [&]() {
-    VectorWithOffset<int> nomax(1, 3);
-    nomax.fill(-1);
-    SeparableMetzArrayFilter<3, float> g(fwhms, powers, sd, nomax);
-    std::string s;
-    for (int d = 0; d < 3; ++d)
-      {
-        const MetzLine m = metz_line(g, d, Hcap, a);
-        if (maxk[d + 1] > 0 && H[d] < m.H)
-          s += vf::fmt("%sdim%d:half-width %d of %d", s.empty() ? "" : ", ", d + 1, H[d], m.H);
-      }
-    return s;
-  };
-  {
-    // tolerance: the library's own acceptance criterion (test_SeparableMetzArrayFilter: 3-D sum within 1e-3 of 1 at power 0);
-    // the discretisation (band limit at the sampling frequency, coefficients below 1e-4 of the peak dropped) is not exact
-    const double tol = 1e-3;
-    note_ratio("metz-sum", std::fabs(S - 1), tol);
-    if (!(std::fabs(S - 1) <= tol))
-      {
-        const std::string tr = truncated_axes();
-        ctx.violation(tr.empty() ? "SeparableMetzArrayFilter:power0:kernel-sum-not-one"
-                                 : "SeparableMetzArrayFilter:power0:kernel-cut-by-max_kernel_size-not-renormalised",
-                      vf::fmt("3-D kernel sum (from impulse responses) = %.6g, |sum-1| = %.3g > %.0e; per-dimension sums x centre products: %.6g "
-                              "%.6g %.6g, centre product %.6g; half widths %d,%d,%d; %s",
-                              S, std::fabs(S - 1), tol, L[0].sum, L[1].sum, L[2].sum, P0, H[0], H[1], H[2],
-                              tr.empty() ? "no dimension cut by max_kernel_size" : ("cut: " + tr).c_str()));
-        return;
-      }
-    ctx.count("metz_checks");
-    ctx.count("metz_sum_checks");
-  }
+  // Which axes are cut by max_kernel_size?  (compare with the unrestricted filter, decided before looking at the sum.)
+  // A kernel cut by max_kernel_size is documented NOT to be renormalised (STIR-UsersGuide, Separable Cartesian Metz, rule
+  // (iii): "The spatial kernel width can be limited, which will set any other values to 0"), so it is not one of the
+  // "filters whose kernel sums to one" the property speaks about: its sum is not judged (counted), only that the response
+  // to constant data is constant x (measured kernel sum) as for any convolution.
+  bool cut = false;
+  if (maxk[1] > 0 || maxk[2] > 0 || maxk[3] > 0)
+    {
+      VectorWithOffset<int> nomax(1, 3);
+      nomax.fill(-1);
+      SeparableMetzArrayFilter<3, float> g(fwhms, powers, sd, nomax);
+      for (int d = 0; d < 3; ++d)
+        if (maxk[d + 1] > 0 && H[d] < metz_line(g, d, Hcap, a).H)
+          cut = true;
+    }
+  ctx.desc.add("cut_by_max_kernel_size", cut);
+  if (cut)
+    ctx.count("metz_cut_by_max_kernel_size_sum_not_judged");
+  else
+    {
+      // tolerance: the library's own acceptance criterion (test_SeparableMetzArrayFilter: 3-D sum within 1e-3 of 1 at power 0);
+      // the discretisation (band limit at the sampling frequency, coefficients below 1e-4 of the peak dropped) is not exact
+      const double tol = 1e-3;
+      note_ratio("metz-sum", std::fabs(S - 1), tol);
+      if (!(std::fabs(S - 1) <= tol))
+        {
+          ctx.violation("SeparableMetzArrayFilter:power0:kernel-sum-not-one",
+                        vf::fmt("3-D kernel sum (from impulse responses) = %.6g, |sum-1| = %.3g > %.0e; per-dimension sums x centre products: "
+                                "%.6g %.6g %.6g, centre product %.6g; half widths %d,%d,%d; no dimension cut by max_kernel_size",
+                                S, std::fabs(S - 1), tol, L[0].sum, L[1].sum, L[2].sum, P0, H[0], H[1], H[2]));
+          return;
+        }
+      ctx.count("metz_checks");
+      ctx.count("metz_sum_checks");
+    }
   // ---- response to data constant over a box = constant x kernel sum wherever the support stays inside the box
   int lo[3], n[3], blo[3], bhi[3];
   long total = 1;
